@@ -1,4 +1,5 @@
 """Program model over the mirfacts fact base + CFG / dataflow primitives used by the rules."""
+import os
 import re
 from collections import defaultdict, deque
 
@@ -68,7 +69,7 @@ def place_str(p):
 
 class Body:
     __slots__ = ("raw", "crate", "id", "kind", "span", "blocks", "locals", "argc", "types",
-                 "_succ", "_pred", "_defs", "_uses", "prog")
+                 "_succ", "_pred", "_defs", "_uses", "prog", "_wrapped")
 
     def __init__(self, raw, crate, types, prog):
         self.raw = raw
@@ -84,6 +85,7 @@ class Body:
         self._pred = None
         self._defs = None
         self._uses = None
+        self._wrapped = None
         self.prog = prog
 
     # ---- types
@@ -239,7 +241,30 @@ class Body:
                         and is_bare(st["d"]):
                     out.add(i)
                     break
+                # `Some(Err(e))` returned by the closure of a filter_map / map_while that is collected into a Result:
+                # the Err aggregate is wrapped once and the wrapper is the return value
+                if st.get("r") == "agg" and st.get("ak") == "adt" and st.get("adt") == "core::result::Result" \
+                        and st.get("variant") == "Err" and is_bare(st["d"]) and st["d"] in self._wrapped_into_ret():
+                    out.add(i)
+                    break
         return out
+
+    def _wrapped_into_ret(self):
+        """locals that are the single operand of an `Option::Some` aggregate assigned to the return place"""
+        w = getattr(self, "_wrapped", None)
+        if w is None:
+            w = set()
+            for bl in self.blocks:
+                if bl.get("cl"):
+                    continue
+                for st in bl["st"]:
+                    if st.get("r") == "agg" and st.get("ak") == "adt" and st.get("adt") == "core::option::Option" \
+                            and st.get("variant") == "Some" and is_bare(st["d"]) and st["d"] == 0 and len(st.get("o", [])) == 1:
+                        l = op_local(st["o"][0])
+                        if l is not None:
+                            w.add(l)
+            self._wrapped = w
+        return w
 
     def ok_exits(self):
         """return blocks reachable from entry without crossing an error block"""
@@ -274,6 +299,11 @@ class Body:
 class Program:
     def __init__(self, config="default", repo=None):
         raw, hsh, nfiles = _facts.load_raw(config, repo or _facts.REPO)
+        # undo behaviour-preserving renames / helper extractions relative to the reference tree (normalize.py)
+        self.normalised = []
+        if not os.environ.get("VERIF_NO_NORMALIZE"):
+            from . import normalize as _normalize
+            self.normalised = _normalize.normalize(raw)
         self.config = config
         self.hash = hsh
         self.nfiles = nfiles
